@@ -2,13 +2,14 @@
 // (pointer results are returned as offsets from the argument, -1 = null pointer).
 // Ten public headers (strlen strcmp strncmp strchr memchr memcmp memcpy memmove wmemcpy wmemmove) have two branches:
 // `#if defined(__clang__)` forwards to __builtin_*, `#else` uses the portable etl::detail templates. G selects the configuration:
-//   G=0: the clang configuration, G=1: the gcc configuration.
-// Where the compiler at hand builds the selected configuration itself the public entry is called (clang: G=0, g++ native replay:
-// G=1); otherwise the expression of the other branch of that header is replicated literally (CLANGCFG / GCCCFG below).
+//   G=0: the clang configuration, G=1: the gcc configuration. The public entry is called in every case:
+//   * clang, G=1 (the solver build of the gcc configuration): __clang__ is undefined before the first tetl header is included, so the
+//     real `#else` branches of the real headers are compiled - nothing is replicated here;
+//   * g++ (native replay / translator validation), G=1: the public entry is the gcc configuration anyway;
+//   * g++, G=0: g++ cannot compile the clang branch (no __builtin_wmemcpy), so for these ten functions the builtin call of that
+//     branch is written out (CLANGCFG). This path never decides a query.
 // All other functions have a single implementation: G makes no difference.
 #include "vf.h"
-#include <etl/cstring.hpp>
-#include <etl/cwchar.hpp>
 #ifndef W
 #define W 0
 #endif
@@ -16,13 +17,17 @@
 #define G 0
 #endif
 #if defined(__clang__)
-#define GCCCFG G          /* replicate the #else branch */
-#define CLANGCFG 0
+#define VF_REAL_CLANG 1
 #else
-#define GCCCFG 0
-#define CLANGCFG (!G)     /* replicate the #if defined(__clang__) branch */
+#define VF_REAL_CLANG 0
 #include <wchar.h>
 #endif
+#if G && VF_REAL_CLANG
+#undef __clang__
+#endif
+#define CLANGCFG (!G && !VF_REAL_CLANG)
+#include <etl/cstring.hpp>
+#include <etl/cwchar.hpp>
 using sz = etl::size_t;
 using pd = long;
 #if W
@@ -36,9 +41,7 @@ template <class P> static pd off(P const* r, P const* base) { return r != nullpt
 // ---------------------------------------------------------------- narrow
 K sz k_strlen(char const* s)
 {
-#if GCCCFG
-    return etl::detail::strlen<char, etl::size_t>(s);
-#elif CLANGCFG
+#if CLANGCFG
     return __builtin_strlen(s);
 #else
     return etl::strlen(s);
@@ -46,9 +49,7 @@ K sz k_strlen(char const* s)
 }
 K int k_strcmp(char const* a, char const* b)
 {
-#if GCCCFG
-    return etl::detail::strcmp<char>(a, b);
-#elif CLANGCFG
+#if CLANGCFG
     return __builtin_strcmp(a, b);
 #else
     return etl::strcmp(a, b);
@@ -56,9 +57,7 @@ K int k_strcmp(char const* a, char const* b)
 }
 K int k_strncmp(char const* a, char const* b, sz n)
 {
-#if GCCCFG
-    return etl::detail::strncmp<char, etl::size_t>(a, b, n);
-#elif CLANGCFG
+#if CLANGCFG
     return __builtin_strncmp(a, b, n);
 #else
     return etl::strncmp(a, b, n);
@@ -70,9 +69,7 @@ K pd k_strcat(char* d, char const* s) { return off(etl::strcat(d, s), d); }
 K pd k_strncat(char* d, char const* s, sz n) { return off(etl::strncat(d, s, n), d); }
 K pd k_strchr(char const* s, int c)
 {
-#if GCCCFG
-    return off(etl::detail::strchr<char const>(s, c), s);
-#elif CLANGCFG
+#if CLANGCFG
     return off(static_cast<char const*>(__builtin_strchr(s, c)), s);
 #else
     return off(etl::strchr(s, c), s);
@@ -80,9 +77,7 @@ K pd k_strchr(char const* s, int c)
 }
 K pd k_strchr_nc(char* s, int c)
 {
-#if GCCCFG
-    return off(etl::detail::strchr<char>(s, c), s);
-#elif CLANGCFG
+#if CLANGCFG
     return off(static_cast<char*>(__builtin_strchr(s, c)), s);
 #else
     return off(etl::strchr(s, c), s);
@@ -98,9 +93,7 @@ K pd k_strstr(char const* h, char const* n) { return off(etl::strstr(h, n), h); 
 K pd k_strstr_nc(char* h, char* n) { return off(etl::strstr(h, n), h); }
 K pd k_memcpy(char* d, char const* s, sz n)
 {
-#if GCCCFG
-    return off(static_cast<char*>(etl::detail::memcpy<unsigned char, etl::size_t>(d, s, n)), d);
-#elif CLANGCFG
+#if CLANGCFG
     return off(static_cast<char*>(__builtin_memcpy(d, s, n)), d);
 #else
     return off(static_cast<char*>(etl::memcpy(d, s, n)), d);
@@ -108,9 +101,7 @@ K pd k_memcpy(char* d, char const* s, sz n)
 }
 K pd k_memmove(char* d, char const* s, sz n)
 {
-#if GCCCFG
-    return off(reinterpret_cast<char*>(etl::detail::memmove<unsigned char>(d, s, n)), d);
-#elif CLANGCFG
+#if CLANGCFG
     return off(static_cast<char*>(__builtin_memmove(d, s, n)), d);
 #else
     return off(static_cast<char*>(etl::memmove(d, s, n)), d);
@@ -119,11 +110,7 @@ K pd k_memmove(char* d, char const* s, sz n)
 K pd k_memset(char* d, int c, sz n) { return off(static_cast<char*>(etl::memset(d, c, n)), d); }
 K int k_memcmp(char const* a, char const* b, sz n)
 {
-#if GCCCFG
-    auto const* l = reinterpret_cast<unsigned char const*>(a);
-    auto const* r = reinterpret_cast<unsigned char const*>(b);
-    return etl::detail::strncmp<unsigned char, etl::size_t>(l, r, n);
-#elif CLANGCFG
+#if CLANGCFG
     return __builtin_memcmp(a, b, n);
 #else
     return etl::memcmp(a, b, n);
@@ -131,11 +118,7 @@ K int k_memcmp(char const* a, char const* b, sz n)
 }
 K pd k_memchr(char const* s, int c, sz n)
 {
-#if GCCCFG
-    auto const* const p = reinterpret_cast<unsigned char const*>(s);
-    auto const ch       = static_cast<unsigned char>(c);
-    return off(reinterpret_cast<char const*>(etl::detail::memchr<unsigned char const, etl::size_t>(p, ch, n)), s);
-#elif CLANGCFG
+#if CLANGCFG
     return off(static_cast<char const*>(__builtin_memchr(static_cast<void const*>(s), c, n)), s);
 #else
     return off(static_cast<char const*>(etl::memchr(static_cast<void const*>(s), c, n)), s);
@@ -143,10 +126,7 @@ K pd k_memchr(char const* s, int c, sz n)
 }
 K pd k_memchr_nc(char* s, int c, sz n)
 {
-#if GCCCFG
-    auto* p = reinterpret_cast<unsigned char*>(s);
-    return off(reinterpret_cast<char*>(etl::detail::memchr(p, static_cast<unsigned char>(c), n)), s);
-#elif CLANGCFG
+#if CLANGCFG
     return off(static_cast<char*>(__builtin_memchr(static_cast<void*>(s), c, n)), s);
 #else
     return off(static_cast<char*>(etl::memchr(static_cast<void*>(s), c, n)), s);
@@ -173,9 +153,7 @@ K pd k_strstr(wchar_t const* h, wchar_t const* n) { return off(etl::wcsstr(h, n)
 K pd k_strstr_nc(wchar_t* h, wchar_t* n) { return off(etl::wcsstr(h, n), h); }
 K pd k_memcpy(wchar_t* d, wchar_t const* s, sz n)
 {
-#if GCCCFG
-    return off(n == 0 ? d : etl::detail::strncpy(d, s, n), d);
-#elif CLANGCFG
+#if CLANGCFG
     return off(::wmemcpy(d, s, n), d);   /* g++ has no __builtin_wmemcpy; the clang builtin lowers to this libc call */
 #else
     return off(etl::wmemcpy(d, s, n), d);
@@ -183,9 +161,7 @@ K pd k_memcpy(wchar_t* d, wchar_t const* s, sz n)
 }
 K pd k_memmove(wchar_t* d, wchar_t const* s, sz n)
 {
-#if GCCCFG
-    return off(etl::detail::memmove<wchar_t, etl::size_t>(d, s, n), d);
-#elif CLANGCFG
+#if CLANGCFG
     return off(::wmemmove(d, s, n), d);  /* likewise */
 #else
     return off(etl::wmemmove(d, s, n), d);
